@@ -28,8 +28,16 @@ fn seeds_for(ctx: &Ctx, target: &str) -> Vec<Vec<u8>> {
     };
     match target {
         "pre" | "compose" => {
+            // only a few seeds with macro uses (each use costs a parser construction per execution)
+            let mut with_macros = 0;
             for t in texts {
-                if t.len() <= 4096 {
+                if t.len() <= 3000 {
+                    if t.contains("macro") || t.contains("MACRO") {
+                        with_macros += 1;
+                        if with_macros > 8 {
+                            continue;
+                        }
+                    }
                     v.push(t.into_bytes());
                 }
             }
@@ -103,7 +111,10 @@ pub fn campaigns(ctx: &Ctx, targets: &[&str]) {
         return;
     }
     let jobs = (16 / targets.len().max(1)).max(1);
-    let runs: u64 = std::env::var("VERIF_FUZZ_RUNS").ok().and_then(|s| s.parse().ok()).unwrap_or(1_500_000);
+    // runs per job: a macro use inside an input builds a parser inside the code under test (7 ms), so the two
+    // whole-program targets run at 50-2000 exec/s and get fewer runs than the line-oriented ones (10^4 exec/s)
+    let runs_env: Option<u64> = std::env::var("VERIF_FUZZ_RUNS").ok().and_then(|s| s.parse().ok());
+    let runs_for = |t: &str| -> u64 { runs_env.unwrap_or(if t == "pre" { 120_000 } else if t == "compose" { 60_000 } else { 1_000_000 }) };
     let allow: Vec<String> = ctx.open_keys().iter().filter_map(|k| k.split("|panic|").nth(1).map(|s| s.replace('#', ""))).collect();
     let mut children = Vec::new();
     for t in targets {
@@ -118,7 +129,7 @@ pub fn campaigns(ctx: &Ctx, targets: &[&str]) {
         write_dict(&dict);
         let mut cmd = Command::new("cargo");
         cmd.args(["+nightly", "fuzz", "run", "--fuzz-dir", FUZZ_DIR, t, &corpus, "--"])
-            .arg(format!("-runs={}", runs))
+            .arg(format!("-runs={}", runs_for(t)))
             .arg(format!("-seed={}", (ctx.seed % 0x7FFF_FFFF).max(1)))
             .args(["-len_control=0", "-max_len=3000", "-timeout=25", "-rss_limit_mb=3000", "-print_final_stats=1"])
             .arg(format!("-dict={}", dict))
